@@ -311,6 +311,19 @@ Theorem gen_threading_eq :
   = model_threading.
 Proof. reflexivity. Qed.
 
+(* every `continue` of the scalar-attribute loop and of the arrays loop of _recursive_load, by kind, in source order.
+   The model (decode_obj): fa drops a key iff obj_meta_attr k || mem k sn (the attrs-field whitelist never fires on a
+   file written from the declared fields) and has NO type test - load_type_skipped is false on every SAttr value;
+   fr drops iff mem k sn, then iff mem (exact_ty v) st. *)
+Definition model_attr_loop_filters : list string := ["meta"; "name"; "attrs-fields"].
+Definition model_array_loop_filters : list string := ["name"; "exact-type"].
+Theorem gen_load_loop_filters_eq :
+  gen_load_attr_loop_filters = model_attr_loop_filters /\ gen_load_array_loop_filters = model_array_loop_filters /\
+  (forall st v, sclass_of v = SAttr -> load_type_skipped st v = false).
+Proof.
+  split; [reflexivity|split; [reflexivity|]]. intros st v Hc. unfold load_type_skipped. rewrite Hc. reflexivity.
+Qed.
+
 (* the model side of the same facts, stated on the model's own functions *)
 Theorem model_threading_facts :
   (forall sn st m c fields name g,
